@@ -59,6 +59,7 @@ type rt struct {
 	tier      string
 	envs      [NEnv]envs.Environment
 	drawIdx   int
+	draws     *world.Draws
 	run       flows.Run
 	ev        *excellent.Evaluator
 	small     *types.XObject
@@ -104,6 +105,7 @@ func newRT(tier string) (*rt, error) {
 	// environment 1: the session's merged environment (location resolver, other formats), draws at the top
 	r.envs[0] = envs.NewBuilder().Build()
 	r.envs[1] = x.Session.MergedEnvironment()
+	r.draws = x.Draws
 	x.Draws.Choose = func(n int, label string) int {
 		if r.drawIdx >= n {
 			return n - 1
@@ -339,6 +341,7 @@ func (cc *callCounts) flushInto(acc *delta, fnCounter string) {
 
 type tplResult struct {
 	entry string
+	stage string // ctx: where a panic happened, other than the evaluation itself
 	p     string
 	ok    bool
 	nErr  int
@@ -507,6 +510,10 @@ func (r *rt) runGroup(g Group, from int, skip map[int]bool, only []int, wantSamp
 			}
 			r.execCall(d, dc, acc, cc)
 			cc.flushInto(acc, fc)
+		case "ctx":
+			if err := r.execCtx(*dc.ctx, acc, wantSample); err != nil {
+				acc.violation("harness:ctx", fmt.Sprintf("harness error in context %s: %v", mc.JSON(*dc.ctx), err), *dc.ctx)
+			}
 		default:
 			r.execTemplate(dc, acc, wantSample)
 		}
@@ -576,6 +583,10 @@ func (r *rt) runOne(g Group, cs Case, pub func(idx int), flush func(*delta)) str
 		cc.flushInto(acc, fc)
 	case "tpl":
 		r.execTemplate(dc, acc, false)
+	case "ctx":
+		if err := r.execCtx(cs, acc, false); err != nil {
+			return "context " + mc.JSON(cs) + ": " + err.Error()
+		}
 	default:
 		return "unknown case kind " + cs.K
 	}
